@@ -77,7 +77,18 @@ def chk_index_from_linear(F, E, body, s):
     """values[linear_index] where linear_index is the Ok payload of get_linear_index(self, index)."""
     idx = body.expr(s.call.args[1])
     ok = any(sfx(c[1], "DimArray::get_linear_index") for c in expr_calls(idx))
-    return ok and on_continue_arm_of(body, "DimArray::get_linear_index", s.bb)
+    if ok and on_continue_arm_of(body, "DimArray::get_linear_index", s.bb):
+        return True
+    # `self.get_linear_index(index).map(|linear_index| self.values[linear_index] ..)`: the closure runs on the Ok value only
+    if "::{closure" in body.path and strip_expr(idx) == ("param", 1):
+        parent = F.bodies.get(body.path.split("::{closure", 1)[0])
+        if parent is not None:
+            for c in parent.calls():
+                if c.callee.split("::")[-1] == "map" and "Result" in c.callee and c.args:
+                    recv = strip_expr(parent.expr(c.args[0]))
+                    if recv[0] == "call" and sfx(recv[1], "DimArray::get_linear_index"):
+                        return True
+    return False
 
 
 def chk_gli(F, E, body, s):
@@ -413,6 +424,34 @@ def expr_has_field_(e, name):
     return expr_has_field(e, name)
 
 
+def chk_caret_range(F, E, body, s):
+    """`range.end - range.start` where range is what TokenizationError::string_range(..) returned -- in this function, or
+    (when the range is a parameter of a helper) at every call site of the helper."""
+    ops = s.term["ops"]
+    a, b = strip_expr(body.expr(ops[0])), strip_expr(body.expr(ops[1]))
+
+    def range_root(e, field):
+        if e[0] == "place" and e[2] and e[2][-1][1] == field and str(e[2][-1][0]).endswith("Range"):
+            return e
+        return None
+    ra, rb = range_root(a, "end"), range_root(b, "start")
+    if ra is None or rb is None:
+        return False
+
+    def from_string_range(bd, e, depth=0):
+        if any(x[1].endswith("TokenizationError::string_range") for x in expr_calls(e)):
+            return True
+        ps = set()
+        from lib import expr_params
+        ps = expr_params(e)
+        if depth < 2 and len(ps) == 1 and not expr_calls(e):
+            pi = list(ps)[0]
+            callers = [(cb, c) for cb in F.bodies.values() for c in cb.calls() if c.callee == bd.path]
+            return bool(callers) and all(pi < len(c.args) and from_string_range(cb, cb.expr(c.args[pi]), depth + 1) for cb, c in callers)
+        return False
+    return from_string_range(body, ra) and from_string_range(body, rb)
+
+
 R = {}
 
 
@@ -474,7 +513,7 @@ row(P + "program::Program::rewind_before_token|panic|panic_fmt|of:new", "INV-INP
 row(P + "string_manager::StringManager::gc|vec-op|drain|of:collect", "FULL-RANGE", "drain(..) over the full range cannot panic",
     chk_drain_full)
 row(P + "interpreter_error::TracedInterpreterError::get_line_with_pointer_caret|assert|Overflow:Sub", "HOST-CONTRACT",
-    "range = string_range(line.len()) of the line that was tokenised (doc comment of the API): start <= end <= len")
+    "range = string_range(line.len()) of the line that was tokenised (doc comment of the API): start <= end <= len", chk_caret_range)
 # ---- rng
 row(P + "random::Rng::random|assert|Overflow:Mul", "INV-RNG", "seed <= 2^33-1 at every read (C18 interval argument)")
 row(P + "random::Rng::random|assert|Overflow:Add", "INV-RNG", "seed <= 2^33-1 at every read (C18 interval argument)")
